@@ -32,6 +32,9 @@ from typing import Tuple
 # ============================================================
 # Reverse arithmetic operation helpers
 # ============================================================
+def _reverse_mul(y, x):
+	return x * y
+
 def _reverse_sub(y, x):
 	return x - y
 
@@ -1061,7 +1064,8 @@ class Vector():
 		raise SerifTypeError(f"Unsupported operand type: {type(other).__name__}")
 
 	def __rmul__(self, other):
-		return self.__mul__(other)
+		# other * element, in the written order: multiplication need not commute for the elements
+		return self._elementwise_operation(other, _reverse_mul, '__rmul__', '*')
 
 	def __rsub__(self, other):
 		return self._elementwise_operation(other, _reverse_sub, '__rsub__', '-')
